@@ -303,3 +303,7 @@ _run_c17 = run
 def run(rep, programs):  # noqa: F811
     _run_c17(rep, programs)
     r_forward(rep, programs["core"])
+    # the zone's metadata lives in memory that is not zeroed: a fresh instance must write every entry, or stale "free" entries
+    # beyond the managed range are handed out (frames over the metadata and header pages)
+    from props import c06
+    c06.r_init_coverage(rep, programs["core"])
